@@ -11,7 +11,7 @@ from mc import common, ref
 
 PROP = 'C15'
 LEVEL = 'exploration'
-RULE = ('all strings over the 8 canonical characters up to length 4 and every alias character; all (signals, patterns) '
+RULE = ('all strings over the 8 canonical characters up to length 4, every alias character alone, all pairs over the 25 alias characters and every alias inside a longer string; all (signals, patterns) '
         'arrays with signals*patterns <= 4 over the 8 values; structured fills (every position takes every value over two '
         'backgrounds) for shapes up to (3,17), (2,3,9) and 1-D; pattern counts 1..17; unpackbits/packbits for all 8- and '
         '16-bit values of every integer dtype and walking/two-bit/boundary patterns for 32/64 bit; popcount on all bytes '
@@ -99,6 +99,28 @@ def _aliases(kyupy, lg, res, task):
         if str(r) != ref.CHARS[code]:
             res.violation(f'C15/aliases/render/{ch!r}', {'task': list(task)}, f'renders as {r!r} expected {ref.CHARS[code]!r}')
         res.sig(('alias', ch))
+    # aliases inside longer strings (all pairs over the full alias alphabet, and every alias between two canonical characters)
+    al = list(ALIASES)
+    for a1 in al:
+        for a2 in al:
+            res.evals += 1
+            s2 = a1 + a2
+            got = lg.mvarray(s2)
+            if got.tolist() != [ALIASES[a1], ALIASES[a2]]:
+                res.violation(f'C15/aliases/pair/{s2!r}', {'task': list(task)}, f'mvarray({s2!r}) = {got.tolist()} expected {[ALIASES[a1], ALIASES[a2]]}')
+        for left, right in (('0', '1'), ('R', 'X')):
+            res.evals += 1
+            s3 = left + a1 + right
+            exp = [ALIASES[left], ALIASES[a1], ALIASES[right]]
+            if lg.mvarray(s3).tolist() != exp:
+                res.violation(f'C15/aliases/inner/{s3!r}', {'task': list(task)}, f'mvarray({s3!r}) = {lg.mvarray(s3).tolist()} expected {exp}')
+            two = lg.mvarray(s3, s3[::-1])
+            if two.tolist() != [[exp[k], exp[2 - k]] for k in range(3)]:
+                res.violation(f'C15/aliases/inner2/{s3!r}', {'task': list(task)}, f'mvarray({s3!r}, reversed) = {two.tolist()}')
+            bp = lg.bparray(s3)
+            if lg.bp_to_mv(bp)[:, 0].tolist() != exp:
+                res.violation(f'C15/aliases/bparray/{s3!r}', {'task': list(task)}, f'bparray({s3!r}) decodes to {lg.bp_to_mv(bp)[:, 0].tolist()} expected {exp}')
+        res.sig(('alias-pairs', a1))
     for v, code in NONSTR:
         res.evals += 1
         a = lg.mvarray([v, v])
